@@ -121,7 +121,7 @@ def Flds.toList : Flds → List (Nat × Val)
   | .nil => []
   | .cons a v r => (a, v) :: r.toList
 
-/-- `getattr(value, a, MISSING)` on any value. -/
+/-- `value.__dict__.get(a, MISSING)` on any value. -/
 def Val.getAttr (a : Nat) : Val → Val
   | .inst _ fs => fs.get a
   | _ => MISSING
@@ -151,6 +151,10 @@ structure AttrSpec where
   prep : Option Nat := none
   /-- item preparer (`_prepare_<item>`), an index into `Env.prep` -/
   itemPrep : Option Nat := none
+  /-- what `getattr(obj, name)` finds on the class when the instance dictionary has no entry
+  (a default written in the class body; `none` for factories and for no default) -/
+  classAttr : Option Val := none
+  deriving DecidableEq
 
 structure ClassSpec where
   id : Nat
@@ -175,6 +179,17 @@ def Env.isSub (E : Env) (d c : Nat) : Bool :=
   d == c || (match E.cls? d with | some cs => cs.supers.contains c | none => false)
 
 def AttrSpec.defaultVal (sp : AttrSpec) : Val := sp.default.getD MISSING
+
+/-- `getattr(value, a, MISSING)`: the instance dictionary, then the class attribute. -/
+def Env.getAttr (E : Env) (obj : Val) (a : Nat) : Val :=
+  match obj with
+  | .inst c fs =>
+    if fs.get a = MISSING then
+      match E.attr? c a with
+      | some sp => sp.classAttr.getD MISSING
+      | none => MISSING
+    else fs.get a
+  | _ => MISSING
 
 /-- Python `==` between scalars as far as `value in Literal.__args__` needs it
 (`True == 1`, `1.0 == 1`). -/
@@ -300,10 +315,103 @@ def keyMissing (cs : ClassSpec) (kw : Kw) : Bool :=
     | none => false
     | some sp => sp.default.isNone && (kw.get? k).isNone
 
+/-- the value `InitMethod.init` assigns to an attribute: the keyword, else the class default -/
+def initValue (sp : AttrSpec) (kw : Kw) : Val :=
+  match kw.get? sp.name with
+  | some v => if v = MISSING then sp.defaultVal else v
+  | none => sp.defaultVal
+
 def allMissing (attrs : List AttrSpec) : Flds :=
   match attrs with
   | [] => .nil
   | sp :: r => .cons sp.name MISSING (allMissing r)
+
+/-- an optional callback applied -/
+def applyOpt (f : Option Tr) (v : Val) : Val :=
+  match f with
+  | some f => f v
+  | none => v
+
+/-! ## The stages of `mutate_value`
+
+The recursive callees (`construct`, `setattr` on a nested value) are parameters,
+so that each numbered step of `mutate_value` is a definition of its own.  -/
+
+/-- steps (1) and (2): which value is taken, and the preparer (suppressed for the old value) -/
+def mvValue (old : Val) (p : MV) : Val :=
+  let useNew := p.new != MISSING && p.new != EMPTY
+  let value := if useNew then p.new else if !p.replace then old else MISSING
+  let prepare := if useNew || p.replace then p.prepare else none
+  applyOpt prepare value
+
+/-- steps (3) a dict as constructor arguments, else (4) construct when MISSING; also returns `used_attrs` -/
+def mvConstruct (E : Env) (ctor : Nat → Kw → Except Err Val) (p : MV) (value : Val) :
+    Except Err (Val × List Nat) :=
+  match p.ty, value with
+  | some ty, .dict kvs =>
+    if !conforms E ty (.dict .nil) then
+      match kvs.asKw with
+      | none => .error .typeError
+      | some dkw =>
+        match ty.ctor with
+        | .spec c => (ctor c (dkw ++ p.attrs)).map (·, [])
+        | .builtin d => if dkw.isEmpty && p.attrs.isEmpty then .ok (d, []) else .error .typeError
+        | .coll _ => .error .typeError
+        | .uncallable => .error .typeError
+    else .ok (value, [])
+  | some ty, v =>
+    if v = MISSING then
+      match ty.ctor with
+      | .spec c =>
+        let used := match E.cls? c with
+          | some cs => (p.attrs.filter (fun kv => (cs.attr? kv.1).isSome)).map (·.1)
+          | none => []
+        (ctor c (p.attrs.filter (fun kv => used.contains kv.1 && kv.2 != MISSING))).map (·, used)
+      | .builtin d => .ok (d, [])
+      | .coll e => .ok (e, [])
+      | .uncallable => .error .typeError
+    else .ok (v, [])
+  | none, v => .ok (v, [])
+
+/-- step (5): the remaining attributes are assigned one by one -/
+def mvAttrs (set : Val → Nat → Val → Except Err Val) (used : List Nat) (attrs : Kw) (value : Val) :
+    Except Err Val :=
+  if attrs.isEmpty then .ok value
+  else if value = NONE || value = MISSING then .error .valueError
+  else attrs.foldlM (fun acc kv =>
+        if used.contains kv.1 || kv.2 = MISSING then .ok acc else set acc kv.1 kv.2) value
+
+/-- step (6) -/
+def mvTransform (p : MV) (value : Val) : Val := applyOpt p.transform value
+
+/-- step (7) -/
+def mvAttrTransforms (E : Env) (set : Val → Nat → Val → Except Err Val) (kt : KwT) (value : Val) :
+    Except Err Val :=
+  kt.foldlM (fun acc af =>
+      let tv := af.2 (E.getAttr acc af.1)
+      if tv = MISSING then .ok acc else set acc af.1 tv) value
+
+/-- the empty collection of an annotation (`type_instantiate`) -/
+def emptyOf : Ty → Val
+  | .list _ => .list .nil
+  | .set _ => .set .nil
+  | _ => .dict .nil
+
+/-- `if self.collection is None or self.collection is MISSING: self.collection = self._create_collection()` -/
+def normNone (ty : Ty) (v : Val) : Val :=
+  if v = NONE || v = MISSING then emptyOf ty else v
+
+/-- truthiness of the incoming collection -/
+def nonEmptyColl : Val → Bool
+  | .list xs => !xs.isEmpty
+  | .set xs => !xs.isEmpty
+  | .dict kvs => !kvs.isEmpty
+  | _ => true
+
+/-- adding items to a set one by one -/
+def dedupVals : Vals → Vals → Vals
+  | .nil, acc => acc
+  | .cons x xs, acc => dedupVals xs (if acc.mem x then acc else acc.snoc x)
 
 /-! ## The recursive knot -/
 
@@ -315,57 +423,12 @@ def mutateValue (E : Env) : Nat → Val → MV → Except Err Val
   | 0, _, _ => .error .runtimeError
   | n+1, old, p =>
     if p.new = UNCHANGED then .ok old else
-    -- (1) which value
-    let useNew := p.new != MISSING && p.new != EMPTY
-    let value := if useNew then p.new else if !p.replace then old else MISSING
-    let prepare := if useNew || p.replace then p.prepare else none
-    -- (2) preparer
-    let value := match prepare with | some f => f value | none => value
-    -- (3) dict as constructor arguments / (4) construct when MISSING
-    let step34 : Except Err (Val × List Nat) :=
-      match p.ty, value with
-      | some ty, .dict kvs =>
-        if !conforms E ty (.dict .nil) then
-          match kvs.asKw with
-          | none => .error .typeError
-          | some dkw =>
-            match ty.ctor with
-            | .spec c => (construct E n c (dkw ++ p.attrs)).map (·, [])
-            | .builtin d => if dkw.isEmpty && p.attrs.isEmpty then .ok (d, []) else .error .typeError
-            | .coll _ => .error .typeError
-            | .uncallable => .error .typeError
-        else .ok (value, [])
-      | some ty, v =>
-        if v = MISSING then
-          match ty.ctor with
-          | .spec c =>
-            let used := match E.cls? c with
-              | some cs => (p.attrs.filter (fun kv => (cs.attr? kv.1).isSome)).map (·.1)
-              | none => []
-            (construct E n c (p.attrs.filter (fun kv => used.contains kv.1 && kv.2 != MISSING))).map (·, used)
-          | .builtin d => .ok (d, [])
-          | .coll e => .ok (e, [])
-          | .uncallable => .error .typeError
-        else .ok (v, [])
-      | none, v => .ok (v, [])
-    match step34 with
+    match mvConstruct E (construct E n) p (mvValue old p) with
     | .error e => .error e
     | .ok (value, used) =>
-    -- (5) remaining attributes
-    let step5 : Except Err Val :=
-      if p.attrs.isEmpty then .ok value
-      else if value = NONE || value = MISSING then .error .valueError
-      else p.attrs.foldlM (fun acc kv =>
-            if used.contains kv.1 || kv.2 = MISSING then .ok acc else setAttrV E n acc kv.1 kv.2) value
-    match step5 with
-    | .error e => .error e
-    | .ok value =>
-    -- (6) transform
-    let value := match p.transform with | some f => f value | none => value
-    -- (7) attribute transforms
-    p.attrTransforms.foldlM (fun acc af =>
-        let tv := af.2 (acc.getAttr af.1)
-        if tv = MISSING then .ok acc else setAttrV E n acc af.1 tv) value
+      match mvAttrs (setAttrV E n) used p.attrs value with
+      | .error e => .error e
+      | .ok value => mvAttrTransforms E (setAttrV E n) p.attrTransforms (mvTransform p value)
 
 /-- `setattr(value, a, v)`: the generated `__setattr__` of spec classes
 (`prepare_attr_value` + `mutate_attr(inplace=True)`), `AttributeError` on other values. -/
@@ -393,14 +456,8 @@ def prepareAttrValue (E : Env) : Nat → Val → AttrSpec → Val → Kw → Exc
 def collPrepare (E : Env) : Nat → Val → AttrSpec → Val → Except Err Val
   | 0, _, _, _ => .error .runtimeError
   | n+1, inst, sp, v =>
-    let empty : Val := match sp.ty with
-      | .list _ => .list .nil | .set _ => .set .nil | _ => .dict .nil
-    let v := if v = NONE || v = MISSING then empty else v
-    let nonEmpty : Bool := match v with
-      | .list xs | .set xs => !xs.isEmpty
-      | .dict kvs => !kvs.isEmpty
-      | _ => true
-    if !conforms E sp.ty v || (nonEmpty && sp.itemPrep.isSome) then
+    let v := normNone sp.ty v
+    if !conforms E sp.ty v || (nonEmptyColl v && sp.itemPrep.isSome) then
       match sp.ty with
       | .dict kt vt =>
         match v with
@@ -409,16 +466,12 @@ def collPrepare (E : Env) : Nat → Val → AttrSpec → Val → Except Err Val
       | .set _ =>
         match iterate v with
         | none => .error .typeError
-        | some items => (addItemsSeq E n inst sp items .nil).map fun ys => .set (dedup ys .nil)
+        | some items => (addItemsSeq E n inst sp items .nil).map fun ys => .set (dedupVals ys .nil)
       | _ =>
         match iterate v with
         | none => .error .typeError
         | some items => (addItemsSeq E n inst sp items .nil).map .list
     else .ok v        -- `_prepare_items` re-inserts every (conforming) item unchanged
-where
-  dedup : Vals → Vals → Vals
-    | .nil, acc => acc
-    | .cons x xs, acc => dedup xs (if acc.mem x then acc else acc.snoc x)
 
 /-- `add_items` of sequences and sets: `add_item(item)` for every item
 (`mutate_value(MISSING, new_value=item, prepare=prepare_item, replace=True, …)`, then the
@@ -464,23 +517,21 @@ def construct (E : Env) : Nat → Nat → Kw → Except Err Val
           match cs.attr? a with
           | none => .ok acc
           | some sp =>
-            let v := match kw.get? a with
-              | some v => if v = MISSING then sp.defaultVal else v
-              | none => sp.defaultVal
-            if v = MISSING then .ok acc else setAttrV E n acc a v)
+            if initValue sp kw = MISSING then .ok acc else setAttrV E n acc a (initValue sp kw))
         (.inst c (allMissing cs.attrs))
 
 end
 
 /-! ## The helpers -/
 
-/-- What a helper call returned: the receiver itself, or another object. -/
+/-- What a helper call did: returned the receiver itself, returned another object, or raised. -/
 inductive Ref
   | receiver
   | fresh (v : Val)
+  | raised (e : Err)
   deriving DecidableEq
 
-/-- Observable outcome of a successful call: the receiver's state afterwards and what was returned. -/
+/-- Observable outcome of a call: the receiver's state afterwards and what was returned / raised. -/
 structure Outcome where
   recv : Val
   ret : Ref
@@ -491,6 +542,7 @@ def Outcome.result (o : Outcome) : Val :=
   match o.ret with
   | .receiver => o.recv
   | .fresh v => v
+  | .raised _ => o.recv
 
 /-- `mutate_attr(obj, attr, value, inplace)` on the receiver: returns `obj` untouched on a
 sentinel; otherwise type check, copy unless `inplace`, store. -/
@@ -528,7 +580,7 @@ def updateAttr (E : Env) (n : Nat) (recv : Val) (sp : AttrSpec) (v : Val) (kw : 
     Except Err Outcome :=
   if !kwOk E sp.ty (kw.map (·.1)) then .error .typeError
   else if !cond then .ok ⟨recv, .receiver⟩
-  else match mutateValue E n (recv.getAttr sp.name) { new := v, ty := some sp.ty, attrs := kw } with
+  else match mutateValue E n (E.getAttr recv sp.name) { new := v, ty := some sp.ty, attrs := kw } with
     | .error e => .error e
     | .ok u => withAttr E n recv sp u [] inplace true
 
@@ -537,34 +589,38 @@ def transformAttr (E : Env) (n : Nat) (recv : Val) (sp : AttrSpec) (f : Option T
     (inplace cond : Bool) : Except Err Outcome :=
   if !kwOk E sp.ty (kt.map (·.1)) then .error .typeError
   else if !cond then .ok ⟨recv, .receiver⟩
-  else match mutateValue E n (recv.getAttr sp.name) { transform := f, ty := some sp.ty, attrTransforms := kt } with
+  else match mutateValue E n (E.getAttr recv sp.name) { transform := f, ty := some sp.ty, attrTransforms := kt } with
     | .error e => .error e
     | .ok u => withAttr E n recv sp u [] inplace true
 
-/-- the generated `__delattr__` on a value: back to the class default (type checked,
-not prepared); without a default the raw `del` (AttributeError when nothing is set). -/
-def delAttrV (E : Env) (obj : Val) (sp : AttrSpec) : Except Err Val :=
-  match sp.default with
-  | none => if obj.getAttr sp.name = MISSING then .error .attributeError else .ok (obj.setField sp.name MISSING)
-  | some d =>
-    if d.isSent then (if obj.getAttr sp.name = MISSING then .error .attributeError else .ok (obj.setField sp.name MISSING))
-    else if !conforms E sp.ty d then .error .typeError
-    else .ok (obj.setField sp.name d)
+/-- the generated `__delattr__` on a value: back to the class default, run through
+`prepare_attr_value` and the type check as the constructor does; without a default the raw
+`del` (AttributeError when nothing is set). -/
+def delAttrV (E : Env) (n : Nat) (obj : Val) (sp : AttrSpec) : Except Err Val :=
+  if sp.defaultVal = MISSING then
+    (if obj.getAttr sp.name = MISSING then .error .attributeError else .ok (obj.setField sp.name MISSING))
+  else match prepareAttrValue E n obj sp sp.defaultVal [] with
+    | .error e => .error e
+    | .ok pv => mutateAttrV E obj sp pv
 
 def outcomeOf (recv new : Val) (inplace : Bool) : Outcome :=
   if inplace then ⟨new, .receiver⟩ else ⟨recv, .fresh new⟩
 
 /-- `ResetAttrMethod.reset_attr` -/
-def resetAttr (E : Env) (recv : Val) (sp : AttrSpec) (inplace cond : Bool) : Except Err Outcome :=
+def resetAttr (E : Env) (n : Nat) (recv : Val) (sp : AttrSpec) (inplace cond : Bool) : Except Err Outcome :=
   if !cond then .ok ⟨recv, .receiver⟩
-  else (delAttrV E recv sp).map fun v => outcomeOf recv v inplace
+  else (delAttrV E n recv sp).map fun v => outcomeOf recv v inplace
+
+/-- the keyword check of the generated top-level wrappers: attributes of the receiver's class -/
+def kwTopOk (E : Env) (recv : Val) (names : List Nat) : Bool :=
+  match classOf recv with
+  | some c => kwOk E (.spec c) names
+  | none => names.isEmpty
 
 /-- `UpdateMethod.update`: `mutate_value(old_value=self, new_value=…, attrs=…, inplace=…)` -/
 def updateTop (E : Env) (n : Nat) (recv : Val) (v : Val) (kw : Kw) (inplace cond : Bool) :
     Except Err Outcome :=
-  if !(match classOf recv with
-       | some c => kwOk E (.spec c) (kw.map (·.1))
-       | none => kw.isEmpty) then .error .typeError
+  if !kwTopOk E recv (kw.map (·.1)) then .error .typeError
   else if !cond then .ok ⟨recv, .receiver⟩
   else match mutateValue E n recv { new := v, attrs := kw } with
     | .error e => .error e
@@ -576,9 +632,7 @@ def updateTop (E : Env) (n : Nat) (recv : Val) (v : Val) (kw : Kw) (inplace cond
 /-- `TransformMethod.transform`; a supplied `_transform` returns a new object. -/
 def transformTop (E : Env) (n : Nat) (recv : Val) (f : Option Tr) (kt : KwT) (inplace cond : Bool) :
     Except Err Outcome :=
-  if !(match classOf recv with
-       | some c => kwOk E (.spec c) (kt.map (·.1))
-       | none => kt.isEmpty) then .error .typeError
+  if !kwTopOk E recv (kt.map (·.1)) then .error .typeError
   else if !cond then .ok ⟨recv, .receiver⟩
   else match mutateValue E n recv { transform := f, attrTransforms := kt } with
     | .error e => .error e
@@ -587,21 +641,28 @@ def transformTop (E : Env) (n : Nat) (recv : Val) (f : Option Tr) (kt : KwT) (in
       | some _ => .ok ⟨recv, .fresh u⟩
       | none => if kt.isEmpty then .ok ⟨recv, .receiver⟩ else .ok (outcomeOf recv u inplace)
 
-/-- `ResetMethod.reset`: every attribute in metadata order, `AttributeError` swallowed. -/
-def resetAllV (E : Env) (obj : Val) (attrs : List AttrSpec) : Except Err Val :=
-  attrs.foldlM (fun acc sp =>
-    match delAttrV E acc sp with
-    | .ok v => .ok v
-    | .error .attributeError => .ok acc
-    | .error e => .error e) obj
+/-- `ResetMethod.reset`: every attribute in metadata order, `AttributeError` swallowed.
+Another error stops the loop (second component); the caller discards the partial state
+(the copy is dropped / `_rollback_on_error` restores the instance dictionary). -/
+def resetAllV (E : Env) (n : Nat) : Val → List AttrSpec → Val × Option Err
+  | obj, [] => (obj, none)
+  | obj, sp :: rest =>
+    match delAttrV E n obj sp with
+    | .ok v => resetAllV E n v rest
+    | .error .attributeError => resetAllV E n obj rest
+    | .error e => (obj, some e)
 
-def resetTop (E : Env) (recv : Val) (inplace cond : Bool) : Except Err Outcome :=
-  if !cond then .ok ⟨recv, .receiver⟩
+/-- `reset(_inplace=…, _if=…)`; all-or-nothing in both forms. -/
+def resetTop (E : Env) (n : Nat) (recv : Val) (inplace cond : Bool) : Outcome :=
+  if !cond then ⟨recv, .receiver⟩
   else match classOf recv with
-    | none => .error .attributeError
+    | none => ⟨recv, .raised .attributeError⟩
     | some c => match E.cls? c with
-      | none => .error .attributeError
-      | some cs => (resetAllV E recv cs.attrs).map fun v => outcomeOf recv v inplace
+      | none => ⟨recv, .raised .attributeError⟩
+      | some cs =>
+        match resetAllV E n recv cs.attrs with
+        | (v, none) => outcomeOf recv v inplace
+        | (_, some e) => ⟨recv, .raised e⟩
 
 /-! ## Operations -/
 
@@ -625,30 +686,297 @@ structure Call where
 def specOf (E : Env) (recv : Val) (a : Nat) : Option AttrSpec :=
   (classOf recv).bind (fun c => E.attr? c a)
 
-/-- One API call on the receiver. `Except.error`: the call raised and (by the
-library's copy-before-write / roll-back) the receiver is as it was. -/
-def run (E : Env) (n : Nat) (recv : Val) (c : Call) : Except Err Outcome :=
+/-- a call that raised before touching the receiver -/
+def lift (recv : Val) : Except Err Outcome → Outcome
+  | .ok o => o
+  | .error e => ⟨recv, .raised e⟩
+
+/-- One API call on the receiver. Every helper either succeeds or raises with the receiver
+as it was (copy-before-write / roll-back). -/
+def run (E : Env) (n : Nat) (recv : Val) (c : Call) : Outcome :=
   match c.op with
   | .withA a v kw => match specOf E recv a with
-    | none => .error .attributeError
-    | some sp => withAttr E n recv sp v kw c.inplace c.cond
+    | none => ⟨recv, .raised .attributeError⟩
+    | some sp => lift recv (withAttr E n recv sp v kw c.inplace c.cond)
   | .updateA a v kw => match specOf E recv a with
-    | none => .error .attributeError
-    | some sp => updateAttr E n recv sp v kw c.inplace c.cond
+    | none => ⟨recv, .raised .attributeError⟩
+    | some sp => lift recv (updateAttr E n recv sp v kw c.inplace c.cond)
   | .transformA a f kt => match specOf E recv a with
-    | none => .error .attributeError
-    | some sp => transformAttr E n recv sp f kt c.inplace c.cond
+    | none => ⟨recv, .raised .attributeError⟩
+    | some sp => lift recv (transformAttr E n recv sp f kt c.inplace c.cond)
   | .resetA a => match specOf E recv a with
-    | none => .error .attributeError
-    | some sp => resetAttr E recv sp c.inplace c.cond
+    | none => ⟨recv, .raised .attributeError⟩
+    | some sp => lift recv (resetAttr E n recv sp c.inplace c.cond)
   | .setattr a v => match specOf E recv a with
-    | none => .error .attributeError
-    | some _ => (setAttrV E (n+1) recv a v).map fun r => ⟨r, .receiver⟩
+    | none => ⟨recv, .raised .attributeError⟩
+    | some _ => lift recv ((setAttrV E (n+1) recv a v).map fun r => ⟨r, .receiver⟩)
   | .delattr a => match specOf E recv a with
-    | none => .error .attributeError
-    | some sp => (delAttrV E recv sp).map fun r => ⟨r, .receiver⟩
-  | .update v kw => updateTop E n recv v kw c.inplace c.cond
-  | .transform f kt => transformTop E n recv f kt c.inplace c.cond
-  | .reset => resetTop E recv c.inplace c.cond
+    | none => ⟨recv, .raised .attributeError⟩
+    | some sp => lift recv ((delAttrV E n recv sp).map fun r => ⟨r, .receiver⟩)
+  | .update v kw => lift recv (updateTop E n recv v kw c.inplace c.cond)
+  | .transform f kt => lift recv (transformTop E n recv f kt c.inplace c.cond)
+  | .reset => resetTop E n recv c.inplace c.cond
+
+
+/-! ## Spec: a direct transcription of the documentation
+
+`docsite/docs/usage/methods/scalars.md`, `toplevel.md` and the doc-string of
+`SetAttrMethod`/`DelAttrMethod`, in the documentation's own vocabulary:
+
+* "`with_<attr>(v)` sets `<attr>` to `v`"                        → `assign`: `s[a := prepared v]`, type checked
+* "keywords … direct mutation of the attributes of the nested spec class" → `build` (a freshly built nested
+  instance) when no value is given, `merge` (successive assignments) into a given value
+* "`update_<attr>` … incrementally updated rather than replaced"     → `merge` into the existing nested value
+* "`transform_<attr>` applies a function to the current value …, stores the result" → `assign (f old)`
+* "`reset_<attr>` … back to the default value provided by the class (or MISSING)" → the default, as the constructor assigns it
+* "`a.x = v` is equivalent to `a.with_x(v, _inplace=True)`", deleting = resetting
+* `update` / `transform` / `reset`: the same for several attributes at once
+* `_if=False`, MISSING, UNCHANGED: no-op returning the receiver (property text)
+
+Two primitives are taken from the object model and not re-specified: calling a
+class (`construct`) and assigning an attribute of a *nested* value (`setAttrV`);
+`setAttrV_is_assign` (Props) shows the latter is `assign` again.
+`Doc.apply E m` describes `run E (m+2)` (fuel is a device of the model only).
+-/
+namespace Spec
+
+def isDict : Val → Bool
+  | .dict _ => true
+  | _ => false
+
+/-- the attribute's preparer, for instance `obj` -/
+def prep (E : Env) (sp : AttrSpec) (obj v : Val) : Val :=
+  match sp.prep with
+  | some p => E.prep p obj v
+  | none => v
+
+/-- a dict given where the annotation does not admit a dict: its entries are constructor keywords -/
+def castDict (E : Env) (m : Nat) (ty : Ty) (v : Val) : Except Err Val :=
+  match v with
+  | .dict kvs =>
+    if conforms E ty (.dict .nil) then .ok v
+    else match kvs.asKw with
+      | none => .error .typeError
+      | some dkw => match ty.ctor with
+        | .spec c => construct E m c dkw
+        | .builtin d => if dkw.isEmpty then .ok d else .error .typeError
+        | .coll _ => .error .typeError
+        | .uncallable => .error .typeError
+  | v => .ok v
+
+/-- "the prepared v": preparer, dict → nested instance, collection normalisation -/
+def prepared (E : Env) (m : Nat) (obj : Val) (sp : AttrSpec) (v : Val) : Except Err Val :=
+  match castDict E m sp.ty (prep E sp obj v) with
+  | .error e => .error e
+  | .ok v2 => if sp.ty.isCollection then collPrepare E (m+1) obj sp v2 else .ok v2
+
+/-- `recv[a := prepared v]`, type checked, on the receiver or on a copy -/
+def assign (E : Env) (m : Nat) (recv : Val) (sp : AttrSpec) (v : Val) (inplace : Bool) : Except Err Outcome :=
+  match prepared E m recv sp v with
+  | .error e => .error e
+  | .ok pv => mutateAttr E recv sp pv inplace
+
+/-- the same on a value -/
+def assignV (E : Env) (m : Nat) (obj : Val) (sp : AttrSpec) (v : Val) : Except Err Val :=
+  match prepared E m obj sp v with
+  | .error e => .error e
+  | .ok pv => mutateAttrV E obj sp pv
+
+/-- merge keywords into a nested value: successive attribute assignments (a MISSING keyword is skipped);
+there is nothing to merge into `None` / no value -/
+def merge (E : Env) (n : Nat) (base : Val) (kw : Kw) : Except Err Val :=
+  if kw.isEmpty then .ok base
+  else if base = NONE || base = MISSING then .error .valueError
+  else kw.foldlM (fun acc kv => if kv.2 = MISSING then .ok acc else setAttrV E n acc kv.1 kv.2) base
+
+/-- the same with transforms of the attributes' current values -/
+def mergeT (E : Env) (n : Nat) (base : Val) (kt : KwT) : Except Err Val :=
+  kt.foldlM (fun acc af =>
+      let tv := af.2 (E.getAttr acc af.1)
+      if tv = MISSING then .ok acc else setAttrV E n acc af.1 tv) base
+
+/-- a freshly built nested instance -/
+def build (E : Env) (n : Nat) (c : Nat) (kw : Kw) : Except Err Val :=
+  construct E n c (kw.filter (fun kv => kv.2 != MISSING))
+
+def noop (recv : Val) : Outcome := ⟨recv, .receiver⟩
+
+/-- the nested value `update_<a>(v, **kw)` hands to the assignment -/
+def updateNested (E : Env) (m : Nat) (recv : Val) (sp : AttrSpec) (v : Val) (kw : Kw) : Except Err Val :=
+  let base := if v.isSent then E.getAttr recv sp.name else v
+  if base = MISSING then
+    match sp.ty.kwClass with
+    | some c => build E (m+1) c kw
+    | none => .ok base
+  else merge E (m+1) base kw
+
+/-- the value `transform_<a>(f, **kt)` hands to the assignment -/
+def transformNested (E : Env) (m : Nat) (recv : Val) (sp : AttrSpec) (f : Option Tr) (kt : KwT) :
+    Except Err Val :=
+  let cur := E.getAttr recv sp.name
+  let base : Except Err Val :=
+    if cur = MISSING then
+      match sp.ty.kwClass with
+      | some c => build E (m+1) c []
+      | none => .ok cur
+    else .ok cur
+  match base with
+  | .error e => .error e
+  | .ok b => mergeT E (m+1) (applyOpt f b) kt
+
+namespace Doc
+
+def withA (E : Env) (m : Nat) (recv : Val) (sp : AttrSpec) (v : Val) (kw : Kw) (inplace cond : Bool) : Outcome :=
+  if !kwOk E sp.ty (kw.map (·.1)) then ⟨recv, .raised .typeError⟩
+  else if !cond then noop recv
+  else if v.isSent && (kw.isEmpty || v = UNCHANGED) then noop recv
+  else if kw.isEmpty then lift recv (assign E m recv sp v inplace)
+  else if v.isSent then
+    match sp.ty.kwClass with
+    | none => ⟨recv, .raised .typeError⟩
+    | some c => match build E m c kw with
+      | .error e => ⟨recv, .raised e⟩
+      | .ok nested => lift recv (mutateAttr E recv sp nested inplace)
+  else match merge E m (prep E sp recv v) kw with
+    | .error e => ⟨recv, .raised e⟩
+    | .ok nested => lift recv (mutateAttr E recv sp nested inplace)
+
+def updateA (E : Env) (m : Nat) (recv : Val) (sp : AttrSpec) (v : Val) (kw : Kw) (inplace cond : Bool) : Outcome :=
+  if !kwOk E sp.ty (kw.map (·.1)) then ⟨recv, .raised .typeError⟩
+  else if !cond then noop recv
+  else if v.isSent && (kw.isEmpty || v = UNCHANGED) then noop recv
+  else match updateNested E m recv sp v kw with
+    | .error e => ⟨recv, .raised e⟩
+    | .ok nested => lift recv (assign E m recv sp nested inplace)
+
+def transformA (E : Env) (m : Nat) (recv : Val) (sp : AttrSpec) (f : Option Tr) (kt : KwT)
+    (inplace cond : Bool) : Outcome :=
+  if !kwOk E sp.ty (kt.map (·.1)) then ⟨recv, .raised .typeError⟩
+  else if !cond then noop recv
+  else match transformNested E m recv sp f kt with
+    | .error e => ⟨recv, .raised e⟩
+    | .ok new => if new.isSent then noop recv else lift recv (assign E m recv sp new inplace)
+
+def resetV (E : Env) (m : Nat) (obj : Val) (sp : AttrSpec) : Except Err Val :=
+  if sp.defaultVal = MISSING then
+    (if obj.getAttr sp.name = MISSING then .error .attributeError else .ok (obj.setField sp.name MISSING))
+  else assignV E m obj sp sp.defaultVal
+
+def resetA (E : Env) (m : Nat) (recv : Val) (sp : AttrSpec) (inplace cond : Bool) : Outcome :=
+  if !cond then noop recv
+  else match resetV E m recv sp with
+    | .error e => ⟨recv, .raised e⟩
+    | .ok v => outcomeOf recv v inplace
+
+def update (E : Env) (m : Nat) (recv : Val) (v : Val) (kw : Kw) (inplace cond : Bool) : Outcome :=
+  if !kwTopOk E recv (kw.map (·.1)) then ⟨recv, .raised .typeError⟩
+  else if !cond then noop recv
+  else if v = UNCHANGED then noop recv
+  else if v.isSent then
+    (if kw.isEmpty then noop recv
+     else match merge E (m+1) recv kw with
+      | .error e => ⟨recv, .raised e⟩
+      | .ok u => outcomeOf recv u inplace)
+  else match merge E (m+1) v kw with
+    | .error e => ⟨recv, .raised e⟩
+    | .ok u => ⟨recv, .fresh u⟩
+
+def transform (E : Env) (m : Nat) (recv : Val) (f : Option Tr) (kt : KwT) (inplace cond : Bool) : Outcome :=
+  if !kwTopOk E recv (kt.map (·.1)) then ⟨recv, .raised .typeError⟩
+  else if !cond then noop recv
+  else match f with
+    | none =>
+      if kt.isEmpty then noop recv
+      else match mergeT E (m+1) recv kt with
+        | .error e => ⟨recv, .raised e⟩
+        | .ok u => outcomeOf recv u inplace
+    | some f => match mergeT E (m+1) (f recv) kt with
+      | .error e => ⟨recv, .raised e⟩
+      | .ok u => ⟨recv, .fresh u⟩
+
+/-- all attributes back to their defaults, in declaration order (an attribute that has no
+default and no value is skipped); a default that cannot be assigned aborts the whole reset -/
+def resetAll (E : Env) (m : Nat) : Val → List AttrSpec → Val × Option Err
+  | obj, [] => (obj, none)
+  | obj, sp :: rest =>
+    match resetV E m obj sp with
+    | .ok v => resetAll E m v rest
+    | .error .attributeError => resetAll E m obj rest
+    | .error e => (obj, some e)
+
+def reset (E : Env) (m : Nat) (recv : Val) (inplace cond : Bool) : Outcome :=
+  if !cond then noop recv
+  else match classOf recv with
+    | none => ⟨recv, .raised .attributeError⟩
+    | some c => match E.cls? c with
+      | none => ⟨recv, .raised .attributeError⟩
+      | some cs =>
+        match resetAll E m recv cs.attrs with
+        | (v, none) => outcomeOf recv v inplace
+        | (_, some e) => ⟨recv, .raised e⟩
+
+/-- What the documentation says about one call (`run E (m+2)` is the implementation). -/
+def apply (E : Env) (m : Nat) (recv : Val) (c : Call) : Outcome :=
+  match c.op with
+  | .withA a v kw => match specOf E recv a with
+    | none => ⟨recv, .raised .attributeError⟩
+    | some sp => withA E m recv sp v kw c.inplace c.cond
+  | .updateA a v kw => match specOf E recv a with
+    | none => ⟨recv, .raised .attributeError⟩
+    | some sp => updateA E m recv sp v kw c.inplace c.cond
+  | .transformA a f kt => match specOf E recv a with
+    | none => ⟨recv, .raised .attributeError⟩
+    | some sp => transformA E m recv sp f kt c.inplace c.cond
+  | .resetA a => match specOf E recv a with
+    | none => ⟨recv, .raised .attributeError⟩
+    | some sp => resetA E m recv sp c.inplace c.cond
+  | .setattr a v => match specOf E recv a with
+    | none => ⟨recv, .raised .attributeError⟩
+    | some sp => withA E m recv sp v [] true true       -- `obj.a = v` is `obj.with_a(v, _inplace=True)`
+  | .delattr a => match specOf E recv a with
+    | none => ⟨recv, .raised .attributeError⟩
+    | some sp => resetA E m recv sp true true           -- `del obj.a` is `obj.reset_a(_inplace=True)`
+  | .update v kw => update E m recv v kw c.inplace c.cond
+  | .transform f kt => transform E m recv f kt c.inplace c.cond
+  | .reset => reset E m recv c.inplace c.cond
+
+end Doc
+
+/-- `v` can be handed to the assignment of `sp` as an ordinary value: it is no sentinel and the
+preparer does not answer MISSING (which the code reads as "construct the annotation", finding D16). -/
+def AssignOk (E : Env) (sp : AttrSpec) (obj v : Val) : Prop :=
+  v.isSent = false ∧ prep E sp obj v ≠ MISSING
+
+/-- The calls the documentation describes (everything else is either the open finding about
+MISSING/EMPTY/UNCHANGED or undocumented: a dict of constructor arguments together with keywords,
+a transform of an attribute that holds no value, preparers answering MISSING). -/
+def Documented (E : Env) (m : Nat) (recv : Val) (c : Call) : Prop :=
+  match c.op with
+  | .withA a v kw => ∀ sp, specOf E recv a = some sp →
+      (kw = [] → AssignOk E sp recv v ∨ (v = UNCHANGED ∧ sp.ty.isCollection = false)) ∧
+      (kw ≠ [] → v.isSent = false → prep E sp recv v ≠ MISSING ∧ isDict (prep E sp recv v) = false)
+  | .updateA a v kw => ∀ sp, specOf E recv a = some sp →
+      v ≠ UNCHANGED ∧ (kw = [] → v.isSent = false) ∧
+      (∀ base, base = (if v.isSent then E.getAttr recv sp.name else v) →
+        (isDict base = true → conforms E sp.ty (.dict .nil) = true) ∧
+        (base = MISSING → sp.ty.kwClass.isSome)) ∧
+      (∀ u, updateNested E m recv sp v kw = .ok u → AssignOk E sp recv u)
+  | .transformA a f kt => ∀ sp, specOf E recv a = some sp →
+      (isDict (E.getAttr recv sp.name) = true → conforms E sp.ty (.dict .nil) = true) ∧
+      (E.getAttr recv sp.name = MISSING → sp.ty.kwClass.isSome) ∧
+      (∀ u, transformNested E m recv sp f kt = .ok u →
+        AssignOk E sp recv u ∨ (u = UNCHANGED ∧ sp.ty.isCollection = false))
+  | .resetA a => ∀ sp, specOf E recv a = some sp →
+      sp.defaultVal ≠ MISSING → AssignOk E sp recv sp.defaultVal
+  | .setattr a v => ∀ sp, specOf E recv a = some sp →
+      AssignOk E sp recv v ∨ (v = UNCHANGED ∧ sp.ty.isCollection = false)
+  | .delattr a => ∀ sp, specOf E recv a = some sp →
+      sp.defaultVal ≠ MISSING → AssignOk E sp recv sp.defaultVal
+  | .update _ _ => True
+  | .transform _ _ => True
+  | .reset => ∀ c cs, classOf recv = some c → E.cls? c = some cs →
+      ∀ sp ∈ cs.attrs, sp.defaultVal ≠ MISSING → ∀ obj, AssignOk E sp obj sp.defaultVal
+
+end Spec
 
 end SpecVerif.C05
